@@ -178,7 +178,7 @@ theorem aonly_cls (conf : Conf) (hconf : 0 ≤ conf.maxRdy) {c : Chan} (h : InvA
 
 theorem aonly_deliver (conf : Conf) {c : Chan} (h : InvA conf c) (k id : Nat) (now : Int) :
     AOnly conf (step conf c (.deliver k id now)).1 := by
-  simp only [step]
+  simp only [step, doDeliver]
   split
   · exact h.aonly
   · rename_i cl hf
@@ -435,6 +435,8 @@ theorem step_invA (conf : Conf) (hconf : 0 ≤ conf.maxRdy) {c : Chan} (h : InvA
   | scanDeferred t => exact invA_foldl (fun c id h => invA_deferDueOne h id) _ h
   | finChan k id => cases hat
   | finClient k => cases hat
+  | guard k => cases hat
+  | deliverArmed k id now => cases hat
   | put id => exact InvA.of (step_inv conf h.inv _) (aonly_put conf h id)
   | putDeferred id pri => exact InvA.of (step_inv conf h.inv _) (aonly_putDeferred conf h id pri)
   | addClient k mt sm => exact InvA.of (step_inv conf h.inv _) (aonly_addClient conf hconf h k mt sm)
